@@ -28,7 +28,7 @@ RULE = ('view programs of depth 1..3 over the device-supported operations (index
         'both operand rebuild modes (device_array / create_array(ptr,shape_ptr,dim)); block sizes cycle through 1..33, grids from '
         'exactly covering to 2x over-provisioned, orders ascending / descending / block-interleaved / even-odd / random permutation, '
         'duplicated threads, far out-of-range threads, partial launches; one program additionally over the full cross product '
-        'bsz 1..33 x grid x order; binary ufuncs with both operands views and reductions over them; 12 programs end to end through the real SYCL evaluator over a mock runtime '
+        'bsz 1..33 x grid x order; binary ufuncs with both operands views and reductions over them; number-valued sub-views (reductions over all axes) as first / non-first operands of binary ufuncs, alone, nested, repeated leaf; number literal operands in either position; 16 programs end to end through the real SYCL evaluator over a mock runtime '
         '(its own launch: work-group 32, global size rounded up; work items in 5 orders, duplicated, beyond the launch, omitted); uploads of row- and column-major '
         'operands of rank 1..8 through the real CUDA / HIP create_array. non-trivial = output has >= 2 cells and the schedule is not the plain ascending exact launch')
 EXHAUSTIVE = {'quick': False, 'thorough': False}
@@ -40,7 +40,7 @@ ANCHORS = {'NmVerif.Kernel.createVector/createArray/createMutableArray': 'array:
            'NmVerif.Kernel.deviceOperand': 'cuda::context_t::create_array / hip / sycl (eval/cuda/context.hpp:155-200, eval/hip/context.hpp:158-203, eval/sycl/context.hpp:372-412), run for real in h_c13_dev.cpp / h_c13_sycl.cpp',
            'SYCL launch': 'sycl::context_t::run / run_ (eval/sycl/context.hpp:448-520, 575-595) and evaluator_t<view, shared_ptr<sycl::context_t>> (eval/sycl/evaluator.hpp), run for real over the mock runtime'}
 MANIFEST = dict(
-    text='Proof: 13 Lean theorems about the kernel body model — create_vector/create_array/device_array round trips from raw (pointer, shape, dim) triples, the guard (global id >= size writes nothing), the closed form of the fold over ANY schedule (order, interleaving, duplication, block size, over-provisioned or partial grid: a cell is final iff some executed thread addressed it, otherwise untouched; never out of bounds) and hence output = flattened host result for every covering launch — tied to the C++ by running the real kernel_helper.hpp + functional extraction/apply on the host for 59 view programs of depth 1..3, the real SYCL evaluator end to end over a sequential mock of the SYCL runtime (12 programs) and the real CUDA/HIP operand upload over runtime stand-ins (CUDA/HIP/SYCL path: function extraction + device_array operands + fn::apply; OpenCL path: create_array(ptr,shape_ptr,dim) + direct view call), block sizes 1..33, exact..2x grids, five thread orders, duplicated / far / missing threads, against NumPy and the Lean fold on every check.',
+    text='Proof: 13 Lean theorems about the kernel body model — create_vector/create_array/device_array round trips from raw (pointer, shape, dim) triples, the guard (global id >= size writes nothing), the closed form of the fold over ANY schedule (order, interleaving, duplication, block size, over-provisioned or partial grid: a cell is final iff some executed thread addressed it, otherwise untouched; never out of bounds) and hence output = flattened host result for every covering launch — tied to the C++ by running the real kernel_helper.hpp + functional extraction/apply on the host for 71 view programs of depth 1..3, the real SYCL evaluator end to end over a sequential mock of the SYCL runtime (16 programs) and the real CUDA/HIP operand upload over runtime stand-ins (CUDA/HIP/SYCL path: function extraction + device_array operands + fn::apply; OpenCL path: create_array(ptr,shape_ptr,dim) + direct view call), block sizes 1..33, exact..2x grids, five thread orders, duplicated / far / missing threads, against NumPy and the Lean fold on every check.',
     note='No device in this sandbox: kernel launch, driver API, memory transfer and real hardware scheduling are not exercised; the 1-d launch is modelled as an arbitrary list of (thread, block) pairs executed sequentially (threads write disjoint cells or identical values, so sequential consistency is the only assumption). Lean kernel + propext/Classical.choice/Quot.sound. Known findings (both replayed through the real SYCL evaluator and the real CUDA/HIP create_array as well): column-major host operands are re-read row-major on the device path (repair proposed: fixes/C13-kernel.colmajor-operand.diff); function extraction is wrong when a view operand is not the first operand (fixes/C14-extract.nonfirst-view-operand.diff); follow-ups on branch w4/c1314-postfix. Repaired: dangling reference in get_function_composition for binary ufuncs over views (regression programs kept, also under ASan in the thorough tier).',
     technique='Lean 4 induction over schedules (List (tid x bid)) + differential correspondence of the host-compilable kernel body')
 ASSUMPTIONS = ['a device launch is equivalent to some sequential execution of its threads (each thread writes one cell; colliding writes carry the same value)',
@@ -304,6 +304,14 @@ def _progs():
     add('add_mul_sumall_x_x', 11, 3, lambda A, p: np.sum(A[0]) * A[1] + A[2], g_free_pair, bview=True)
     add('tr_add_maxall_x', 11, 3, lambda A, p: np.transpose(np.max(A[0]) + A[1], p['axes']), g_free_tr, bview=True)
     add('mul_x_sumall_mul', 11, 3, lambda A, p: A[0] * np.sum(A[1] * A[2]), g_free_pair, data='small', nonfirst=True)
+    # number literal operands of binary ufuncs, either position
+    def g_lit1(rng):
+        return [rshape(rng)], P(lit=rng.choice([-7, -2, -1, 0, 1, 2, 3, 5, 11]))
+    def g_lit2(rng):
+        s = rshape(rng); return [s, bpartner(rng, s)], P(lit=rng.choice([-7, -2, -1, 0, 1, 2, 3, 5, 11]))
+    add('add_x_lit', 10, 1, lambda A, p: A[0] + p['lit'], g_lit1)
+    add('mul_lit_x', 10, 1, lambda A, p: p['lit'] * A[0], g_lit1)
+    add('neg_add_mul_x_lit_x', 10, 3, lambda A, p: -(A[0] * p['lit'] + A[1]), g_lit2, bview=True)
     # ---- column-major leaves (known finding kernel.colmajor-operand) ----
     add('transpose_col', 6, 1, lambda A, p: np.transpose(A[0], p['axes']), g_transpose, layout='col')
     add('add_col', 6, 1, lambda A, p: A[0] + A[1], g_bin, layout='col')
